@@ -523,6 +523,8 @@ def check(an: Analysis) -> None:
                             ob.fail(fn, r.ast, "with an expiration configured entries never expire")
                         elif lf is None or {k: int(v_) for k, v_ in lf.items()} != want:
                             ob.fail(fn, r.ast, f"expiry stamp is {fmt_linear(lf)}, required +call:time.monotonic +<expiration>")
+                        elif not any(isinstance(x, ast.Call) and an.callee(fn, x) == "time.monotonic" for x in fn.own_nodes()):
+                            ob.fail(fn, r.ast, "the clock is not read when the entry is stored: the stamp function hands out a deadline computed earlier (when the cache was created), so after one expiration period every entry is stored already expired")
                     elif not is_none:
                         ob.fail(fn, r.ast, "without expiration entries get an expiry stamp")
         for attr, param in (("_limit", "limit"), ("_function", "function")):
@@ -547,7 +549,7 @@ def check(an: Analysis) -> None:
         gg = an.cfg(get)
         dget = Deps(prog, get)
         gp = get.param_names()
-        for label, inst, own in (("through an instance", Abs("object", tag="instance"), Abs("type", "object", tag="owner")), ("through the class", None, Abs("type", "object", tag="owner"))):
+        for label, inst, own in (("through an instance", Abs("object", tag="instance"), Abs("type", "object", tag="owner")), ("through an instance whose truth value is False", Abs("object", truthy=False, tag="instance"), Abs("type", "object", tag="owner")), ("through the class", None, Abs("type", "object", tag="owner"))):
 
             def base(e: ast.AST, inst=inst, own=own):
                 if is_name(e, gp[1]):
